@@ -420,6 +420,30 @@ theorem C11_dt_safe (env : Env) (cmp lt2 : Nat → Nat → Bool)
 
 /-! ### T3 — what a guard does when its test holds -/
 
+/-- **C11+C10 (shift / zoom → zoom_shift).** Let the guards of the native `py_zoom_shift` pass on an `array` of at least
+one element per axis (well-formed descriptor) and a 1-D `shifts` array. Then `array` is an aligned C array — its element
+strides are the C strides of its shape — and `shifts` has exactly one entry per axis, so the kernel forms one
+coordinate per axis (`coord`, after rounding/flooring; any integers: the wrapper's guard only has to keep them finite);
+for every border mode and spline order, whenever no axis is flagged, every index `idxs[fi]` the kernel dereferences
+(`array.data()[idxs[fi]]`, model `zsAccesses`) is in `[0, size)`. Composition of `C11_zoom_shift_guards_imply_pre` with
+`C10_zoom_shift_in_bounds`. -/
+theorem C11_zoom_shift_safe (env : Env) (m : Mode) (order : Nat) (coord starts : List Int)
+    (hn : npasses Generated.nativeGuards_interpolate_zoom_shift env = true)
+    (hsk : (env "shifts").kind = 1) (hs1 : 1 ≤ (env "shifts").shape.length)
+    (hnd : (env "array").ndim = (env "array").shape.length)
+    (hpos : ∀ d ∈ (env "array").shape, 0 < d)
+    (hc : coord.length = (env "shifts").shape.getD 0 0)
+    (hst : C10.zsStarts m order (env "array").shape coord = some starts) :
+    (env "array").isCArray = true ∧
+    ∀ idx ∈ C10.zsAccesses (env "array").shape (C10.cStrides (env "array").shape) order starts,
+      0 ≤ idx ∧ idx < (shapeSize (env "array").shape : Int) := by
+  obtain ⟨_, hca, _, hsh, _⟩ := (C11_zoom_shift_guards_imply_pre env).2 hn
+  have hlen : coord.length = (env "array").shape.length := by
+    rw [hc, (hsh hsk).2 hs1, hnd]
+  have hsl : starts.length = (env "array").shape.length :=
+    C10.zsStarts_length m order (env "array").shape coord starts hlen hst
+  exact ⟨hca, (C10_zoom_shift_in_bounds (env "array").shape order starts hpos hsl).2.1⟩
+
 /-- **C11-T3 (rejects are exceptions).** Over the whole generated table of exit actions (every guard atom of the 50
 wrappers and of the 52 native entry points; the table is aligned with the guard lists — its second component is the
 length of the list): every wrapper guard `raise`s; every native guard either sets a Python error and returns NULL
